@@ -129,12 +129,13 @@ func (w *world) signAtt(i int, srcBack, tgtBack, variant int64, how string) stri
 	data := &phase0.AttestationData{Slot: phase0.Slot(tgt) * 32, Index: 1, Source: &phase0.Checkpoint{Epoch: src}, Target: &phase0.Checkpoint{Epoch: tgt}}
 	data.BeaconBlockRoot[0] = byte(variant)
 	pk := shareKey(i).GetPublicKey().Serialize()
+	missing := w.stillBroken(i, "att")
 	sig, root, err := w.km.SignBeaconObject(data, phase0.Domain{}, pk, spectypes.DomainAttester)
 	if err != nil || len(sig) == 0 {
 		return fmt.Sprintf("att(%d,%d) refused", src, tgt)
 	}
 	w.d.Probe("attestation-signed")
-	if w.broken[i] == "att" {
+	if missing {
 		w.d.Violate("signed-without-protection-record", how, "share %d: attestation (%d,%d) was signed although its highest-attestation record is missing or unreadable", i, src, tgt)
 	}
 	w.releasedAtt(i, root[:], src, tgt, how)
@@ -168,12 +169,13 @@ func (w *world) signBlk(i int, slotBack, variant int64, how string) string {
 		obj = b
 	}
 	pk := shareKey(i).GetPublicKey().Serialize()
+	missing := w.stillBroken(i, "prop")
 	sig, root, err := w.km.SignBeaconObject(obj, phase0.Domain{}, pk, spectypes.DomainProposer)
 	if err != nil || len(sig) == 0 {
 		return fmt.Sprintf("blk(%d) refused", slot)
 	}
 	w.d.Probe("block-signed")
-	if w.broken[i] == "prop" {
+	if missing {
 		w.d.Violate("signed-without-protection-record", how, "share %d: block for slot %d was signed although its highest-proposal record is missing or unreadable", i, slot)
 	}
 	w.releasedBlk(i, root[:], slot, how)
@@ -232,6 +234,29 @@ func (w *world) op(s sim.Step, how string) (res string) {
 
 // findRecord locates the protection record of share i directly in the inner database (by key
 // suffix = share public key), without assuming the exact prefix layout.
+// stillBroken re-reads the durable state: a record the simulator removed or corrupted counts as
+// missing only while it is still absent / still the corrupted bytes. An add / bump that was
+// interrupted or failed after it had rewritten the record has legitimately repaired it.
+func (w *world) stillBroken(i int, what string) bool {
+	if w.broken[i] != what {
+		return false
+	}
+	marker := map[string]string{"att": "highest_att", "prop": "highest_prop"}[what]
+	pk := shareKey(i).GetPublicKey().Serialize()
+	intact := false
+	_ = w.inner.GetAll(nil, func(_ int, o basedb.Obj) error {
+		if bytes.Contains(o.Key, []byte(marker)) && bytes.HasSuffix(o.Key, pk) && !bytes.Equal(o.Value, []byte{0xde, 0xad}) {
+			intact = true
+		}
+		return nil
+	})
+	if intact {
+		delete(w.broken, i)
+		w.d.Probe("broken-record-rewritten-by-interrupted-operation")
+	}
+	return !intact
+}
+
 func (w *world) findRecord(i int, marker string) (key []byte) {
 	pk := shareKey(i).GetPublicKey().Serialize()
 	_ = w.inner.GetAll(nil, func(_ int, o basedb.Obj) error {
